@@ -214,6 +214,25 @@ def run(ctx):
             w.close()
     finally:
         shutil.rmtree(tmp, ignore_errors=True)
+    # Codec.Law (decode(encode(c)) == c) for the four default codecs: a fact about CPython, reported, never a violation
+    law = {}
+    step = 1 if ctx.thorough else 23
+    for enc in DEFAULT_ENCODINGS:
+        bad = []; n = 0
+        for cp in range(ctx.seed % step, 0x110000, step):
+            if 0xD800 <= cp <= 0xDFFF: continue
+            ch = chr(cp)
+            try:
+                b = ch.encode(enc)
+            except UnicodeEncodeError:
+                continue
+            n += 1
+            try:
+                if b.decode(enc) != ch: bad.append("U+%04X" % cp)
+            except UnicodeDecodeError:
+                bad.append("U+%04X" % cp)
+        law[enc] = {"encodable_code_points_checked": n, "violating": bad[:20], "exhaustive": step == 1}
+    res.stats["codec_law"] = law
     resp = ctx.lean.eval_sharded(reqs)
     for (case, outcome, log, before, after, detected, entry, exit_, cfg), m in zip(metas, resp):
         if m["outcome"] != outcome or m["ops"] != log or m["detected"] != detected:
